@@ -138,6 +138,14 @@ class Engine(ExprMixin, CallMixin):
         for n, v in zip(names, vs):
             st2.env[n] = v
         body = to_z3(self.truth(self.ev(lam.body, st2)))
+        pats = []
+        for k in node.keywords:
+            if k.arg == "pats":
+                for ptxt in ast.literal_eval(k.value):
+                    terms = [to_z3(self.ev(ast.parse(t, mode="eval").body, st2)) for t in (ptxt if isinstance(ptxt, (list, tuple)) else [ptxt])]
+                    pats.append(z3.MultiPattern(*terms) if len(terms) > 1 else terms[0])
+        if pats:
+            return z3.ForAll(vs, body, patterns=pats) if is_all else z3.Exists(vs, body, patterns=pats)
         return z3.ForAll(vs, body) if is_all else z3.Exists(vs, body)
 
     def spec_forall(self, node, st):
